@@ -53,7 +53,7 @@ Qed.
 
 Lemma dv_S : forall f d, Schema.detect_version vr w (S f) d =
   match jlookup k_type d with
-  | None => Err EKeyError
+  | None => if vr_detect_notype_parse vr then Err EParse else Err EKeyError
   | Some ty =>
     match jlookup k_spec_version d with
     | Some sv =>
@@ -83,7 +83,7 @@ Proof.
   intros f d.
   transitivity (
       match Schema.alookup (u "type") d with
-      | None => Err EKeyError
+      | None => if vr_detect_notype_parse vr then Err EParse else Err EKeyError
       | Some ty =>
         match Schema.alookup (u "spec_version") d with
         | Some sv =>
@@ -129,7 +129,7 @@ Theorem schema_detect_agrees_pf : forall fuel d,
 Proof.
   induction fuel as [|f IH]; intro d; [split; simpl; kill|].
   rewrite detect_obj, dv_S. unfold detect_body.
-  destruct (jlookup k_type d) as [ty|]; [|split; kill].
+  destruct (jlookup k_type d) as [ty|]; [|destruct (vr_detect_notype_parse vr); split; kill].
   destruct (jlookup k_spec_version d) as [sv|].
   - destruct (is_bundle_type ty).
     + split; [intros V H; inversion H; reflexivity|kill].
